@@ -8,6 +8,7 @@ From SU.Spec Require Import RibbonSpec.
 From SU.Proofs Require Import RibbonProofs.
 From SU.Proofs Require Import RibbonExtraProofs.
 From SU.Proofs Require Import RibbonKillers.
+From SU.Proofs Require Import GlideRibbonKillers2.
 Open Scope Z_scope.
 
 (** [finger_is_pressing()] after any sample history is true exactly when the current
@@ -119,6 +120,50 @@ Theorem C15_press_10kHz : forall sp dr pu samples,
   rb_pressing (polls r0 samples) = (180 <=? run_len (in_range r0) samples).
 Proof. exact press_10kHz. Qed.
 
+(** the dispatcher of the model (the function the correspondence check runs and C17 folds over) does what the three operations say *)
+Theorem C15_model_step_spec : forall r x,
+  ribbon_step r (RbPoll x) = (ribbon_poll r x, None) /\
+  ribbon_step r RbJustPressed
+  = (snd (ribbon_just_pressed r), Some (fst (ribbon_just_pressed r))) /\
+  ribbon_step r RbJustReleased
+  = (snd (ribbon_just_released r), Some (fst (ribbon_just_released r))) /\
+  fst (ribbon_just_pressed r) = rb_just_pressed r /\
+  fst (ribbon_just_released r) = rb_just_released r /\
+  rb_just_pressed (snd (ribbon_just_pressed r)) = false /\
+  rb_just_released (snd (ribbon_just_pressed r)) = rb_just_released r /\
+  rb_just_released (snd (ribbon_just_released r)) = false /\
+  rb_just_pressed (snd (ribbon_just_released r)) = rb_just_pressed r.
+Proof. exact model_step_spec. Qed.
+
+(** and is the dispatcher the C15/C16 statements are written with *)
+Theorem C15_model_step_is_rstep : forall r o, ribbon_step r o = rstep r (rop_of o).
+Proof. exact model_step_is_rstep. Qed.
+
+(** so are the two run functions *)
+Theorem C15_model_run_is_rrun : forall h r0,
+  fold_left (fun r o => fst (ribbon_step r o)) h r0 = rrun r0 (map rop_of h) /\
+  samples_of (map rop_of h) = samples_of_ops h.
+Proof. exact model_run_is_rrun. Qed.
+
+(** the press rule, the value window and both edge latches, stated directly on runs of the model's own step function *)
+Theorem C15_model_ribbon_rules : forall cap fs sp dr pu (h : list ribbon_op) x,
+  (0 < cap)%nat ->
+  let r0 := ribbon_new cap fs sp dr pu in
+  let r := fold_left (fun r o => fst (ribbon_step r o)) h r0 in
+  let hs := map rop_of h in
+  let tail_jp := since_last is_jp hs [] in
+  let tail_jr := since_last is_jr hs [] in
+  rb_pressing r
+  = (skip (rb_ignore r0) + Z.of_nat cap <=? run_len (in_range r0) (samples_of_ops h)) /\
+  (rb_pressing r = true -> rb_val r = window_value r0 (window r0 (samples_of_ops h))) /\
+  ribbon_value r = ribbon_value (polls r0 (samples_of_ops h)) /\
+  snd (ribbon_step r (RbPoll x)) = None /\
+  snd (ribbon_step r RbJustPressed)
+  = Some (changed false (rrun r0 (firstn (length hs - length tail_jp) hs)) tail_jp) /\
+  snd (ribbon_step r RbJustReleased)
+  = Some (changed true (rrun r0 (firstn (length hs - length tail_jr) hs)) tail_jr).
+Proof. exact model_ribbon_rules. Qed.
+
 Print Assumptions C15_press_spec.
 Print Assumptions C15_release_immediately.
 Print Assumptions C15_taps_do_not_add_up.
@@ -131,3 +176,7 @@ Print Assumptions C15_capacity_value.
 Print Assumptions C15_press_after_capture_time.
 Print Assumptions C15_press_after_capture_time_hist.
 Print Assumptions C15_press_10kHz.
+Print Assumptions C15_model_step_spec.
+Print Assumptions C15_model_step_is_rstep.
+Print Assumptions C15_model_run_is_rrun.
+Print Assumptions C15_model_ribbon_rules.
